@@ -4,6 +4,10 @@
    the atomic steps of enqueue (tail exchange, link), wakeup (the dq_state rmw loop, root push), drain (try_lock,
    head/pop with the wait for a lagging enqueuer, callout, try_unlock, the DIRTY retry).  The model is
    Model/SLane.v; each dq_state transition in it IS the body regenerated from the source (Gen_dqstate).
+   Control is flat (a call begins at Idle).  An asynchronous submission made from inside a callout is covered up to
+   renaming of thread ids: no step of the push / wakeup path writes the calling thread's id into shared state (the id
+   enters dq_state only in drain_try_lock), so it is the same steps taken by a fresh thread id while the caller stays
+   at PW_incall, and every theorem below quantifies over all such interleavings.
    `_partial`: the full property also quantifies over dispatch_sync / barrier / async_and_wait / group_async, over
    concurrent and chained queues, and over thread-pool growth; those are covered by the files named in
    DESIGN.md §7 (SyncWait, CLane, RootQ) or by the stress oracle only.  Termination is proved in the form: every
